@@ -478,8 +478,16 @@ class Extractor:
         before = self.ids
         val = self.ev(s.value, name_hint=hint)
         val = self._wrap_collection(val, before, hint, s)
-        for t in s.targets:
+        # plain names first: if the value becomes a named variable, the other targets (m.submodules.x = x = ...) see it
+        names = [t for t in s.targets if isinstance(t, ast.Name)]
+        for t in names:
             self.assign_target(t, val, s)
+            bound = self.lookup(t.id)
+            if bound is not None and bound[0] in ("v", "obj"):
+                val = bound
+        for t in s.targets:
+            if not isinstance(t, ast.Name):
+                self.assign_target(t, val, s)
 
     def _wrap_collection(self, val: Term, before: int, hint, s) -> Term:
         """A list / comprehension whose elements are freshly created objects becomes one
@@ -556,6 +564,10 @@ class Extractor:
                     items = tuple(kv for kv in base[1] if kv[0] != idx) + ((idx, val),)
                     self.rebind(t.value.id, ("dict", items))
                     return
+                base = self._escape(t.value.id, base, s)
+            elif isinstance(t.value, ast.Name) and base[0] in ("op", "lc", "call") and self.lookup(t.value.id) == base:
+                # a local list built by an expression ([None] * n, a comprehension, x.copy()) and then mutated:
+                # give it an identity so that two such lists with equal initial values stay distinct
                 base = self._escape(t.value.id, base, s)
             self.emit(Store, s, target=index(base, idx), value=val)
         else:
@@ -765,9 +777,13 @@ class Extractor:
     def st_For(self, s):
         it = self.ev(s.iter)
         loopid = self.fresh()
+        # loop-carried variables: a name that is bound before the loop and re-assigned inside it holds, at the top of
+        # an iteration, either its initial value or the value of an earlier iteration -> opaque inside and after
+        carried = [n for n in _assigned_names(s.body) if self.lookup(n) is not None and n not in self.module_vars]
+        for n in carried:
+            self.rebind(n, ("loopvar", n, loopid))
         binders = self._bind_loop_target(s.target, it, loopid)
         self.frames.append(("for", tuple(binders), it, loopid))
-        before = {k: v for sc in self.scopes for k, v in sc.items()}
         try:
             try:
                 self.walk_body(s.body)
@@ -775,6 +791,8 @@ class Extractor:
                 pass  # return/raise inside a loop: remaining iterations are not modelled as exits
         finally:
             self.frames.pop()
+        for n in carried:
+            self.rebind(n, ("loopvar", n, loopid))
         if s.orelse:
             self.walk_body(s.orelse)
 
@@ -1619,6 +1637,49 @@ def _is_recursive(fn) -> bool:
         if isinstance(n, ast.Call) and isinstance(n.func, ast.Name) and n.func.id == name:
             return True
     return False
+
+
+def _assigned_names(body) -> list[str]:
+    """Names (re)bound by plain assignment statements in `body` (not inside nested function definitions)."""
+    out: list[str] = []
+
+    def targets(t):
+        if isinstance(t, ast.Name):
+            if t.id not in out:
+                out.append(t.id)
+        elif isinstance(t, (ast.Tuple, ast.List)):
+            for e in t.elts:
+                targets(e)
+        elif isinstance(t, ast.Starred):
+            targets(t.value)
+
+    def walk(stmts):
+        for st in stmts:
+            if isinstance(st, (ast.FunctionDef, ast.AsyncFunctionDef, ast.ClassDef, ast.Lambda)):
+                continue
+            if isinstance(st, ast.Assign):
+                for t in st.targets:
+                    targets(t)
+            elif isinstance(st, (ast.AugAssign, ast.AnnAssign)):
+                if not isinstance(st, ast.AugAssign) or not _looks_like_domain(st.target):
+                    targets(st.target)
+            for fld in ("body", "orelse", "finalbody"):
+                sub = getattr(st, fld, None)
+                if isinstance(sub, list):
+                    walk(sub)
+            if isinstance(st, ast.Try):
+                for h in st.handlers:
+                    walk(h.body)
+            if isinstance(st, ast.Match):
+                for c in st.cases:
+                    walk(c.body)
+
+    walk(body)
+    return out
+
+
+def _looks_like_domain(t) -> bool:
+    return isinstance(t, ast.Attribute) or isinstance(t, ast.Subscript)
 
 
 def _is_static(fn) -> bool:
